@@ -1867,6 +1867,10 @@ class RTCSctpTransport(AsyncIOEventEmitter):
                 stream_id = self._data_channel_id
                 while stream_id in self._data_channels:
                     stream_id += 2
+                if stream_id > 65535:
+                    # every stream id of our parity is in use: the channel cannot be opened
+                    channel._setReadyState("closed")
+                    continue
                 self._data_channels[stream_id] = channel
                 channel._setId(stream_id)
 
